@@ -1,7 +1,7 @@
 (* C05 - including a file is the same as typing its lines in place. Statements only. *)
 From Coq Require Import String Permutation.
 From Verif Require Import Base.Str Base.Lines Base.Outcome Regex.Re Regex.Equiv Model.Patterns Model.ParseLine Model.Passes Model.CmdLine Model.Parser Model.Assembler Model.Generate.
-From Verif Require Import Proofs.EquivSound Proofs.PassesProofs Proofs.CmdLineProofs Proofs.ParserProofs Proofs.IncludeInlineProofs Proofs.AssemblerProofs.
+From Verif Require Import Proofs.EquivSound Proofs.PassesProofs Proofs.CmdLineProofs Proofs.ParserProofs Proofs.IncludeInlineProofs Proofs.IncludeAffixProofs Proofs.AssemblerProofs.
 From Verif Require Tie.Pin_lits_regex_parser_parser_Parser_Parse Tie.Pin_lits_regex_parser_parser_Parser_parseLine Tie.Pin_lits_regex_parser_parser_parseFile Tie.Pin_lits_regex_parser_parser_mergePrefixesSuffixes Tie.Pin_lits_regex_parser_include_except_builder_buildIncludeString.
 Open Scope N_scope.
 
@@ -79,3 +79,35 @@ b
 " = [$"a"] ++ scan_lines 65536 c ++ [$"b"].
 Proof. exact include_wordlist_example. Qed.
 Print Assumptions C05_wordlist_include_example.
+
+(* ... and for include files with their OWN prefix / suffix lines: including the file is typing the
+   local block  ##!> assemble / p1 / ##!=> ... the entries ... ##!=> / s1 / ##!=> ... / ##!<  in
+   place - whole parser, whole command, every includer, position and state.  The prefix / suffix
+   values must be ordinary entry lines (a value that is itself a parser directive is read by the
+   parser when typed but handed over as text when included). *)
+Theorem C05_include_with_affixes_is_typing_the_local_block_partial :
+  forall ordp ords ords2 ordi limit fs join cfg limit_asm pre line post pl c contents1 contents2,
+  parse_line ordp (trim_left is_blank line) = Ok pl -> pl_type pl = LInclude -> pl_pairs pl = None ->
+  lookup_file fs (pl_file pl) = Some c -> Forall (affix_file_line ordp) (scan_lines limit c) ->
+  let pfx := affix_values ordp LPrefix (scan_lines limit c) in
+  let sfx := affix_values ordp LSuffix (scan_lines limit c) in
+  let body := text_lines ordp (scan_lines limit c) in
+  (pfx <> [] \/ sfx <> []) ->
+  Forall (reg_fixed ordp) (pfx ++ sfx) -> Forall (reg_fixed ordp) [$"##!> assemble"; $"##!=>"; $"##!<"] ->
+  scan_lines limit contents1 = pre ++ [line] ++ post ->
+  scan_lines limit contents2 = pre ++ block_lines pfx body sfx ++ post ->
+  generate join cfg ordp ords ords2 ordi limit limit_asm fs contents1 =
+  generate join cfg ordp ords ords2 ordi limit limit_asm fs contents2.
+Proof. intros. eapply generate_include_affix_inline; eauto. Qed.
+Print Assumptions C05_include_with_affixes_is_typing_the_local_block_partial.
+
+Theorem C05_include_with_affixes_example :
+  exists pl c,
+    parse_line all_pnames (trim_left is_blank $"##!> include aff") = Ok pl /\ pl_type pl = LInclude /\ pl_pairs pl = None /\
+    lookup_file ex5_fs (pl_file pl) = Some c /\ Forall (affix_file_line all_pnames) (scan_lines 65536 c) /\
+    affix_values all_pnames LPrefix (scan_lines 65536 c) = [$"pre"] /\ affix_values all_pnames LSuffix (scan_lines 65536 c) = [$"post"] /\
+    Forall (reg_fixed all_pnames) ([$"pre"] ++ [$"post"]) /\ Forall (reg_fixed all_pnames) [$"##!> assemble"; $"##!=>"; $"##!<"] /\
+    block_lines [$"pre"] (text_lines all_pnames (scan_lines 65536 c)) [$"post"] =
+      [$"##!> assemble"; $"pre"; $"##!=>"; $"foo"; $"bar"; $"##!=>"; $"post"; $"##!=>"; $"##!<"].
+Proof. exact include_affix_example. Qed.
+Print Assumptions C05_include_with_affixes_example.
